@@ -56,8 +56,29 @@ def run(sc, tier, replay):
                          "-worlds", "3" if thorough else "1", "-free", "400" if thorough else "60"], timeout=3000)
     with ThreadPoolExecutor(max_workers=nsh) as ex:
         rs = list(ex.map(one, range(nsh)))
+    # one more shard under the Go race detector: operations of one batch are answered by concurrent goroutines,
+    # and state they share by accident is an access the detector sees even when the outcome happens to be right
+    race_binary = vlib.go_build(sc, "./cmd/batch", "batch-race", race=True)
+    rr = vlib.run([race_binary, "-out", sc.path("batch-race.trace"), "-seed", str(vlib.seed() * 100 + 99), "-worlds", "2" if thorough else "1",
+                   "-free", "200" if thorough else "30"], timeout=3000, env={"GORACE": "halt_on_error=1 exitcode=66"})
+    if rr.returncode == 66:
+        if not vlib.race_in_code_under_test(rr.stderr):
+            raise vlib.MachineryError("data race inside the harness itself:\n" + rr.stderr[:3000])
+        where = ""
+        for line in rr.stderr.splitlines():
+            line = line.strip()
+            if line.startswith("github.com/buildbuildio/pebbles"):
+                where = line[:-2].replace("github.com/buildbuildio/pebbles", "") if line.endswith("()") else line.replace("github.com/buildbuildio/pebbles", "")
+                break
+        V.violation("data-race:%s" % where, "the operations of one batch share state: the Go race detector reports unsynchronised accesses from the goroutines "
+                    "answering different operations\n%s" % rr.stderr[:2500], {"mode": "race", "stderr": rr.stderr[:6000]})
+    elif rr.returncode != 0 or rr.timed_out:
+        if rr.returncode != 0 and vlib.panic_in_code_under_test(rr.stderr):
+            V.violation("process-dies:race-build", "the gateway died under the race-detector build", {"stderr": rr.stderr[:4000]})
+        else:
+            raise vlib.MachineryError("race-detector shard failed (exit %s): %s" % (rr.returncode, rr.stderr[-2000:]))
     runs = []
-    counts = {"forced": 0, "perturbed": 0, "drift": 0}
+    counts = {"forced": 0, "perturbed": 0, "burst": 0, "drift": 0}
     classes = {}
     for k, r in enumerate(rs):
         evs = []
@@ -114,7 +135,7 @@ def run(sc, tier, replay):
         raise vlib.MachineryError("negative control accepted")
     rc = V.finish()
     sample = next(e for r in runs for e in r["events"] if e["ev"] == "Batch" and e["n"] >= 2)
-    nb = counts["forced"] + counts["perturbed"]
+    nb = counts["forced"] + counts["perturbed"] + counts["burst"]
     vlib.write_evidence(PID, tier, "model_checking", {
         "states": sum(d["states"] for d in design), "transitions": sum(d["transitions"] for d in design),
         "traces_validated_against_impl": nb,
